@@ -2,11 +2,11 @@
 from __future__ import annotations
 from fractions import Fraction
 import numpy as np
-import impl, gen, oracle, evalutil as E
+import forms, impl, gen, oracle, evalutil as E
 from impl import quiet, F
 from props.c10 import summ_equal
 
-RULE = ("class-group scenes under consistent renaming of array labels and group definitions (incl. label sets whose set-iteration order is not ascending or looks contiguous); base pairs x input types x matchers x injective relabellings of prediction and reference labels into [1, 2^24) "
+RULE = ("the invariance re-checked in child interpreters (python -O; multiprocessing start method forkserver with the real worker pool) on pairs whose two sides share label values; class-group scenes under consistent renaming of array labels and group definitions (incl. label sets whose set-iteration order is not ascending or looks contiguous); base pairs x input types x matchers x injective relabellings of prediction and reference labels into [1, 2^24) "
         "biased to {2^k-1, 2^k, 2^k+1} (k = 7,8,15,16,23), to products around 2^32 and to label sums that are multiples of "
         "2^bits x dtypes uint8/16/32/64 (signed int32/int64 for semantic input); matched input relabelled jointly; "
         "non-trivial = relabelling is not the identity and hits a boundary class; cases with tied competing candidates "
@@ -146,6 +146,39 @@ def encoding_case(ctx, src):
     mod = ctx.driver().ask({"op": "overlap", "pred": inp["pred"], "ref": inp["ref"]})
     if sorted(map(tuple, mod)) != got:
         ctx.disagree("overlap pairs", inp, got, mod)
+
+
+def encoding_boundary_corpus(ctx):
+    """deterministic: for k = 32 (uint32 / uint64 arrays) and k = 8, 16, prediction labels at floor((2^k - 1) / (max_ref + 1)) and its
+    neighbours overlapping the largest reference label, for a range of max_ref — the place where pred*(max_ref+1) fits
+    into k bits and pred*(max_ref+1)+ref does not"""
+    for k, dts in ((32, (np.uint32, np.uint64)), (16, (np.uint16, np.uint32)), (8, (np.uint8, np.uint16))):
+        top = 2 ** k - 1
+        rmaxs = [1, 2, 9, 15, 255, 256, 4095, 65535, 65536, 2 ** 20] if k == 32 else ([1, 2, 9, 15, 255] if k == 16 else [1, 2, 9, 15])
+        for rmax in rmaxs:
+            pb = top // (rmax + 1)
+            for d in (-1, 0, 1):
+                p0 = pb + d
+                if p0 < 1:
+                    continue
+                for dt in dts:
+                    if max(p0, rmax) > np.iinfo(dt).max:
+                        continue
+                    pred = np.zeros((1, 8), dt)
+                    ref = np.zeros((1, 8), dt)
+                    pred[0, 0:3], ref[0, 0:2] = p0, rmax            # the boundary pair overlaps
+                    ref[0, 2] = max(1, rmax - 1)
+                    pred[0, 5:7], ref[0, 5:8] = 1, 1 if rmax > 1 else rmax
+                    inp = {"shape": [1, 8], "dtype": str(pred.dtype), "pred": gen.arr_json(pred), "ref": gen.arr_json(ref), "src": "corpus.encoding-boundary",
+                           "kind": "encoding"}
+                    ctx.case(inp, True)
+                    ctx.count("encoding_boundary_corpus")
+                    rl = tuple(int(x) for x in np.unique(ref) if x)
+                    with quiet():
+                        got = sorted(F._calc_overlapping_labels(pred, ref, rl))
+                    want = sorted(oracle.overlap_pairs(pred, ref))
+                    if got != want:
+                        ctx.violation(f"overlapping label pairs {got} differ from the pairs that share a voxel {want}", inp, impl=got, key={"kind": "encoding"})
 
 
 def rand_cfg(rng):
@@ -290,8 +323,77 @@ def grouped_relabel_cases(ctx, n):
                     break
 
 
+def environment_cases(ctx, n):
+    """the relabelling invariance in other process states: a child interpreter started with -O, and one whose
+    multiprocessing start method is forkserver (with the real worker pool); base pairs in which a prediction label value
+    also occurs as a reference label value"""
+    rng = ctx.rng
+    j = lambda a: {"data": gen.arr_json(a), "dtype": str(a.dtype), "shape": list(a.shape)}
+    tasks, meta = [], []
+    for i in range(n):
+        sc = gen.shared_value_scene(rng) if i % 2 == 0 else None
+        pred, ref = sc if sc is not None else gen.pair(rng, ndim=rng.choice([1, 2]), hi=7, max_obj=3, allow_empty=False)
+        pl = [int(x) for x in np.unique(pred) if x]
+        rl = [int(x) for x in np.unique(ref) if x]
+        cfg = E.mk_cfg("UNMATCHED", ["IOU", "DSC"], matcher=E.naive("IOU", (1, 2) if sc is not None else rng.choice([(1, 4), (1, 2)])))
+        if tie_or_fragile(cfg, pred, ref):
+            continue
+        # variants: identity, swapped / shared label values between the two sides, fresh large values
+        shared = list(range(1, max(len(pl), len(rl)) + 1))
+        variants = [({l: l for l in pl}, {l: l for l in rl}),
+                    (dict(zip(pl, rng.sample(shared, len(pl)))), dict(zip(rl, rng.sample(shared, len(rl))))),
+                    (dict(zip(pl, pick_labels(rng, len(pl), 60000))), dict(zip(rl, pick_labels(rng, len(rl), 60000))))]
+        for sig, tau in variants:
+            p2, r2 = relabel(pred, sig, np.uint16), relabel(ref, tau, np.uint16)
+            tasks.append({"kind": "evaluate", "cfg": cfg, "pred": j(p2), "ref": j(r2)})
+        meta.append((pred, ref, cfg, variants))
+    base = [E.run_impl(t["cfg"], np.array(t["pred"]["data"], dtype=np.uint16).reshape(t["pred"]["shape"]),
+                       np.array(t["ref"]["data"], dtype=np.uint16).reshape(t["ref"]["shape"])) for t in tasks]
+    for mode, kw in (("python -O", {"optimize": True}), ("start method forkserver", {"optimize": False})):
+        doc = {"tasks": [{"kind": "info"}] + tasks}
+        if mode.startswith("start"):
+            # every evaluation starts two real worker pools through the fork server: a few cases only
+            nvar = 3 * (3 if ctx.quick else 10)
+            doc = {"tasks": [{"kind": "info"}] + tasks[:nvar], "start_method": "forkserver", "serial_pool": False}
+        res = forms.run_child(doc, **kw)
+        if isinstance(res, dict) or not isinstance(res[0], dict):
+            ctx.notes.append(f"child interpreter ({mode}) could not be started: " + str(res)[:200])
+            continue
+        ctx.extra.setdefault("child_modes", {})[mode] = res[0]
+        k = 0
+        for pred, ref, cfg, variants in meta:
+            if 1 + k + len(variants) > len(res):
+                break
+            outs = res[1 + k:1 + k + len(variants)]
+            here = base[k:k + len(variants)]
+            k += len(variants)
+            inp = {"shape": list(pred.shape), "pred": gen.arr_json(pred), "ref": gen.arr_json(ref), "cfg": cfg, "mode": mode,
+                   "variants": [[{str(a): b for a, b in s_.items()}, {str(a): b for a, b in t_.items()}] for s_, t_ in variants], "src": "environment"}
+            ctx.case(inp, True)
+            ctx.count("child." + mode.replace(" ", "_"))
+            b0 = outs[0]
+            for v, (o, h) in enumerate(zip(outs, here)):
+                if isinstance(o, str) or isinstance(b0, str):
+                    if o != b0:
+                        ctx.violation(f"in a child interpreter ({mode}) the relabelled pair (variant {v}) gives {o}, the original {b0}", inp, key={"kind": "not-invariant-env"})
+                    continue
+                d = summ_equal(b0["ungrouped"], o["ungrouped"], cfg["eval_metrics"])
+                if d:
+                    ctx.violation(f"in a child interpreter ({mode}) the result changes under relabelling (variant {v}): {d}", inp,
+                                  impl={"base": b0["ungrouped"], "relabelled": o["ungrouped"]}, key={"kind": "not-invariant-env"})
+                    break
+                if isinstance(h, dict):
+                    d2 = summ_equal(h["ungrouped"], o["ungrouped"], cfg["eval_metrics"])
+                    if d2:
+                        ctx.violation(f"the same pair evaluates differently in a child interpreter ({mode}) than in this process: {d2}", inp,
+                                      impl={"here": h["ungrouped"], "child": o["ungrouped"]}, key={"kind": "not-invariant-env"})
+                        break
+
+
 def run(ctx):
     corpus(ctx)
+    encoding_boundary_corpus(ctx)
+    environment_cases(ctx, ctx.scale(10, 60))
     grouped_relabel_cases(ctx, ctx.scale(60, 600))
     wrap_sum_corpus(ctx)
     near_tie_relabel(ctx, ctx.scale(4, 30))
@@ -304,6 +406,9 @@ def search(ctx):
 
 def replay(ctx, rec):
     i = rec["input"]
+    if i.get("mode") and i.get("variants"):
+        environment_cases(ctx, 12)
+        return
     if "groups" in i and "base" in i:
         def run(x):
             dt = np.dtype(x["dtype"])
